@@ -406,13 +406,13 @@ impl Prop for C09 {
         }
         let ok = matches!(run.result, Some(Ok(_)));
         let truncated = run.world.hist.iter().any(|h| matches!(h, Hist::UdpRecv { len, full_len, .. } if len < full_len));
-        if truncated {
-            // what the client does after it cut a reply short is owned by C04/C05 (receive buffer)
-            out.skipped = Some("a reply was truncated by the client's receive buffer");
-        } else {
-            for v in check_wire(&call, &mut run.world, ok) {
-                out.violate(v);
+        for v in check_wire(&call, &mut run.world, ok) {
+            // a retry after the client cut a reply short is owned by C04/C05 (receive buffer)
+            if truncated && (v.signature.ends_with("|extra-request") || v.signature.ends_with("|missing-request")) {
+                out.probe("request_count_not_judged_after_truncation");
+                continue;
             }
+            out.violate(v);
         }
         if call.port.is_none() {
             out.probe("default_port_used");
